@@ -93,7 +93,7 @@ func genField(t *rapid.T, used map[string]bool) (fieldM, bool) {
 	} else {
 		fd.Typ = rapid.SampledFrom(singleTypes).Draw(t, "stype")
 	}
-	n := rapid.IntRange(0, 4).Draw(t, "nvals")
+	n := listLen(t, "nvals", 4)
 	loose := rapid.IntRange(0, 11).Draw(t, "loose") == 0
 	if !multi && n > 1 && !loose {
 		n = 1
@@ -127,7 +127,7 @@ func genForm(t *rapid.T, ft string) formM {
 	f := formM{Result: rapid.Bool().Draw(t, "result")}
 	used := map[string]bool{formTypeVar: true}
 	f.Fields = append(f.Fields, fieldM{Var: formTypeVar, Typ: "hidden", Vals: []string{ft}})
-	n := rapid.IntRange(0, 4).Draw(t, "nfields")
+	n := listLen(t, "nfields", 4)
 	for i := 0; i < n; i++ {
 		if fd, ok := genField(t, used); ok {
 			f.Fields = append(f.Fields, fd)
@@ -147,7 +147,7 @@ func genWellFormed(t *rapid.T) infoM {
 		m.Node = genTok(0, 3).Draw(t, "node")
 	}
 	seen := map[[3]string]bool{}
-	n := rapid.IntRange(0, 5).Draw(t, "nident")
+	n := listLen(t, "nident", 5)
 	for i := 0; i < n; i++ {
 		id := identM{
 			Cat:  pick(t, "cat", catPool, 0, 2),
@@ -163,7 +163,7 @@ func genWellFormed(t *rapid.T) infoM {
 		m.Idents = append(m.Idents, id)
 	}
 	fs := map[string]bool{}
-	n = rapid.IntRange(0, 8).Draw(t, "nfeat")
+	n = listLen(t, "nfeat", 8)
 	for i := 0; i < n; i++ {
 		f := pick(t, "feat", featPool, 0, 3)
 		if fs[f] {
@@ -380,4 +380,19 @@ func dims(m infoM) int {
 		n++
 	}
 	return n
+}
+
+// listLen draws the length of a generated list: usually 0..max, one time in
+// fifteen a few dozen or hundred entries (a client with 300 features, a form
+// with 130 fields are legal).
+func listLen(t *rapid.T, label string, max int) int {
+	if rapid.IntRange(0, 39).Draw(t, label+"Long") == 0 {
+		// (lists nested inside other lists stay shorter: the product is what costs)
+		long := map[string][]int{"nvals": {17, 33}, "nfields": {17, 33}}[label]
+		if long == nil {
+			long = []int{17, 33, 65}
+		}
+		return rapid.SampledFrom(long).Draw(t, label+"N")
+	}
+	return rapid.IntRange(0, max).Draw(t, label)
 }
